@@ -1,1 +1,279 @@
-/-! C10 — property theorems (stub: nothing proved yet). -/
+import B6.Gen.Bits
+import B6.Model.Bits
+import B6.Lemmas.Varint
+import B6.Lemmas.Bits
+import Std.Tactic.BVDecide
+/-!
+# C10 — Bit-packed identifiers decode to what was packed
+
+The packing theorems are stated about `B6.Gen.Bits.*`, the definitions `tools/go2lean` regenerates from the
+Go source on every run (T2), so they are re-checked against what the code says now.  `gen_eq_model_*`
+ties the hand-written `B6.Model.Bits` (executed by the driver against the real Go functions, T1) to the
+generated text.  The string packings (postcodes, ONS codes) are loops over strings: hand-modelled
+(`B6.Model.Bits`), proved here kernel-only, tied by T1, and their constants tied by `gen_constants`.
+
+Axioms: `zigzag64*`, `postcode_roundtrip`, `ons_roundtrip`, `builder_layouts_ok`, `gen_*` are kernel-only
+(propext / Classical.choice / Quot.sound).  The other packing theorems use `bv_decide` (symbolic shift
+amounts, 64-bit words), which adds one `…._native.bv_decide.ax_*` axiom each (DESIGN §3).
+-/
+namespace B6.Props.C10
+open B6.Model.Bits B6.Model.Varint
+open B6.Gen.Bits (ZigzagEncode ZigzagDecode CombineTypeAndNamespace TypeAndNamespace_Split EncodeValueType
+  DecodeValue_value EncodeGeometry DecodeGeometryLen DecodeGeometryEncoding Header_Marshal_idAndTag
+  Header_Unmarshal_Tag Header_Unmarshal_ID BucketForID NewUint64MapBuilder_Layout TileIDFromXYZ TileID_ToXYZ
+  NewLatLngID_id LatLngFromID_latE7 LatLngFromID_lngE7)
+
+/-! ## tie: generated definitions = hand-written model (all by `rfl`) -/
+
+theorem gen_eq_model_zigzag : @ZigzagEncode = zigzagEncode ∧ @ZigzagDecode = zigzagDecode := ⟨rfl, rfl⟩
+theorem gen_eq_model_zigzag32 :
+    @B6.Gen.Bits.rendererZigzagEncode = rendererZigzagEncode ∧ @B6.Gen.Bits.rendererZigzagDecode = rendererZigzagDecode :=
+  ⟨rfl, rfl⟩
+theorem gen_eq_model_type_ns :
+    @CombineTypeAndNamespace = combineTypeNs ∧ @TypeAndNamespace_Split = splitTypeNs := ⟨rfl, rfl⟩
+theorem gen_eq_model_value_type :
+    @EncodeValueType = encodeValueType ∧ @DecodeValue_value = decodeValue := ⟨rfl, rfl⟩
+theorem gen_eq_model_geometry :
+    @EncodeGeometry = encodeGeometry ∧ @DecodeGeometryLen = decodeGeometryLen ∧
+    @DecodeGeometryEncoding = decodeGeometryEncoding := ⟨rfl, rfl, rfl⟩
+theorem gen_eq_model_header :
+    (∀ id tag b t, Header_Marshal_idAndTag b t id tag = headerPack id tag b t) ∧
+    (∀ v t, Header_Unmarshal_Tag v t = headerUnpackTag v t) ∧
+    (∀ bucket v b t, Header_Unmarshal_ID bucket v b t = headerUnpackID bucket v b t) ∧
+    @BucketForID = bucketForID ∧ @NewUint64MapBuilder_Layout = builderLayout :=
+  ⟨fun _ _ _ _ => rfl, fun _ _ => rfl, fun _ _ _ _ => rfl, rfl, rfl⟩
+theorem gen_eq_model_tile : @TileIDFromXYZ = tileIDFromXYZ ∧ @TileID_ToXYZ = tileIDToXYZ := ⟨rfl, rfl⟩
+theorem gen_eq_model_latlng :
+    @NewLatLngID_id = newLatLngID ∧ (∀ v, (LatLngFromID_latE7 v, LatLngFromID_lngE7 v) = latLngFromID v) :=
+  ⟨rfl, fun _ => rfl⟩
+
+/-- the constants the hand-written string models and the domain hypotheses below were written for. -/
+theorem gen_constants :
+    B6.Gen.Bits.ValueTypeBits = 2 ∧ B6.Gen.Bits.tileIDZBits = 5 ∧
+    B6.Gen.Bits.gbPostcodeElementBits = 6 ∧ B6.Gen.Bits.gbPostcodeMinLength = 5 ∧
+    B6.Gen.Bits.gbPostcodeMaxLength = 7 ∧ B6.Gen.Bits.gbPostcodeLengthBits = 2 ∧
+    B6.Gen.Bits.ukONSCodeShift = 40 ∧ B6.Gen.Bits.ukONSYearShift = 32 ∧ B6.Gen.Bits.ukONSYearMask = 255 ∧
+    B6.Gen.Bits.ukONSLetterMask = 255 ∧ B6.Gen.Bits.ukONSNumberMask = 4294967295 ∧
+    B6.Gen.Bits.GeometryEncodingReferences = 0 ∧ B6.Gen.Bits.GeometryEncodingLatLngs = 1 ∧
+    B6.Gen.Bits.GeometryEncodingMixed = 2 ∧ B6.Gen.Bits.FeatureTypeInvalid = 4 := by decide
+
+/-! ## zigzag (all values) — kernel-only -/
+
+/-- `ZigzagDecode(ZigzagEncode(x)) = x` for every `int64`. -/
+theorem zigzag64 (x : BitVec 64) : ZigzagDecode (ZigzagEncode x) = x :=
+  zigzagDecode_zigzagEncode x
+
+/-- and `ZigzagEncode(ZigzagDecode(v)) = v` for every `uint64` (the encoding is a bijection). -/
+theorem zigzag64_onto (v : BitVec 64) : ZigzagEncode (ZigzagDecode v) = v :=
+  zigzagEncode_zigzagDecode v
+
+example : ZigzagDecode (ZigzagEncode 0x8000000000000000#64) = 0x8000000000000000#64 := by decide
+
+/-- the code before the repair (arithmetic shift in the decoder) broke the property at `x = 2^62`. -/
+theorem zigzag64_old_counterexample :
+    zigzagDecodeArith (ZigzagEncode 0x4000000000000000#64) ≠ 0x4000000000000000#64 := by decide
+
+/-- renderer: `zigzagDecode(zigzagEncode(x)) = x` for every `int` that is an `int32` (the encoder truncates). -/
+theorem zigzag32 (x : BitVec 32) :
+    B6.Gen.Bits.rendererZigzagDecode (B6.Gen.Bits.rendererZigzagEncode (x.signExtend 64)) = x.signExtend 64 := by
+  unfold B6.Gen.Bits.rendererZigzagDecode B6.Gen.Bits.rendererZigzagEncode
+  bv_decide
+
+example : B6.Gen.Bits.rendererZigzagDecode (B6.Gen.Bits.rendererZigzagEncode ((0x80000000#32).signExtend 64))
+    = (0x80000000#32).signExtend 64 := by decide
+
+theorem zigzag32_old_counterexample :
+    zigzagDecode32Arith (zigzagEncode32 0x40000000#32) ≠ 0x40000000#32 := by decide
+
+/-! ## type + namespace -/
+
+/-- `Split(Combine(t, ns)) = (t, ns)` for every feature type that fits 3 bits (the code uses 0..3; 4..6 are
+the invalid/collection/expression markers) and every namespace index below 2^13. -/
+theorem type_ns (t : BitVec 64) (ns : BitVec 16) (ht : t < 8#64) (hns : ns < 8192#16) :
+    TypeAndNamespace_Split (CombineTypeAndNamespace t ns) = (t, ns) := by
+  unfold TypeAndNamespace_Split CombineTypeAndNamespace
+  ext1 <;> simp only <;> bv_decide
+
+example : TypeAndNamespace_Split (CombineTypeAndNamespace 3#64 8191#16) = (3#64, 8191#16) := by decide
+
+/-- outside the domain the packing is not invertible: namespace 2^13 reads back as type 1, namespace 0. -/
+theorem type_ns_domain_is_needed :
+    TypeAndNamespace_Split (CombineTypeAndNamespace 0#64 8192#16) ≠ (0#64, 8192#16) := by decide
+
+/-! ## value type -/
+
+/-- for `v < 2^62` and a 2-bit type, `EncodeValueType` does not panic and both parts read back. -/
+theorem value_type (t v : BitVec 64) (ht : t < 4#64) (hv : v < 0x4000000000000000#64) :
+    ∃ e, EncodeValueType t v = some e ∧ DecodeValue_value e = v ∧ decodeValueType e = t := by
+  refine ⟨(v <<< 2) ||| t, ?_, ?_, ?_⟩
+  · have h : (((v <<< 2) >>> 2) != v) = false := by bv_decide
+    simp [EncodeValueType, h]
+  · unfold DecodeValue_value; bv_decide
+  · unfold decodeValueType; bv_decide
+
+/-- the guard is exact: `EncodeValueType` panics precisely when `v ≥ 2^62` (so nothing is silently lost). -/
+theorem value_type_guard (t v : BitVec 64) :
+    EncodeValueType t v = none ↔ ¬ v < 0x4000000000000000#64 := by
+  unfold EncodeValueType
+  constructor
+  · intro h
+    split at h
+    · rename_i hc; bv_decide
+    · simp at h
+  · intro h
+    have hc : (((v <<< 2) >>> 2) != v) = true := by bv_decide
+    simp [hc]
+
+example : EncodeValueType 3#64 0x3fffffffffffffff#64 = some 0xffffffffffffffff#64 := by decide
+
+/-! ## geometry encoding + length -/
+
+/-- all three encodings: the length (below 2^62; 2^63 for references) and the encoding read back. -/
+theorem geometry_len (e : BitVec 8) (l : BitVec 64) (he : e < 3#8) (hl : l < 0x4000000000000000#64) :
+    ∃ v, EncodeGeometry e l = some v ∧ DecodeGeometryLen v = l ∧ DecodeGeometryEncoding v = e := by
+  unfold EncodeGeometry DecodeGeometryLen DecodeGeometryEncoding
+  have h3 : e = 0#8 ∨ e = 1#8 ∨ e = 2#8 := by bv_decide
+  rcases h3 with h | h | h <;> subst h
+  · have f : ((l <<< 1 &&& 1#64) == 0#64) = true ∧ (l <<< 1) >>> 1 = l := by
+      constructor <;> bv_decide
+    exact ⟨l <<< 1, by simp, by simp only [f.1, if_true]; exact f.2, by simp [f.1]⟩
+  · have f : (((l <<< 2 ||| 1#64) &&& 1#64) == 0#64) = false ∧ (((l <<< 2 ||| 1#64) &&& 2#64) == 0#64) = true ∧
+        (l <<< 2 ||| 1#64) >>> 2 = l := by
+      refine ⟨?_, ?_, ?_⟩ <;> bv_decide
+    exact ⟨(l <<< 2) ||| 1#64, by simp, by simp only [f.1]; exact f.2.2, by simp [f.1, f.2.1]⟩
+  · have f : (((l <<< 2 ||| 3#64) &&& 1#64) == 0#64) = false ∧ (((l <<< 2 ||| 3#64) &&& 2#64) == 0#64) = false ∧
+        (l <<< 2 ||| 3#64) >>> 2 = l := by
+      refine ⟨?_, ?_, ?_⟩ <;> bv_decide
+    exact ⟨(l <<< 2) ||| 3#64, by simp, by simp only [f.1]; exact f.2.2, by simp [f.1, f.2.1]⟩
+
+example : ∃ v, EncodeGeometry 2#8 5#64 = some v ∧ DecodeGeometryLen v = 5#64 ∧ DecodeGeometryEncoding v = 2#8 :=
+  ⟨23#64, by decide⟩
+
+/-! ## Uint64Map bucket header -/
+
+/-- **one theorem, layout symbolic**: for every layout with `TagBits ≤ BucketBits ≤ 63`, every id and every
+tag below `2^TagBits`, unmarshalling the marshalled word in the id's bucket gives back id and tag. -/
+theorem header_roundtrip (id tag b t : BitVec 64) (hb : b ≤ 63#64) (htb : t ≤ b) (htag : tag < (1#64 <<< t)) :
+    Header_Unmarshal_ID (BucketForID id b) (Header_Marshal_idAndTag b t id tag) b t = id ∧
+    Header_Unmarshal_Tag (Header_Marshal_idAndTag b t id tag) t = tag := by
+  unfold Header_Unmarshal_ID BucketForID Header_Marshal_idAndTag Header_Unmarshal_Tag
+  bv_decide (config := { timeout := 900 })
+
+example : Header_Unmarshal_ID (BucketForID 0x8000000000000005#64 2#64)
+    (Header_Marshal_idAndTag 2#64 2#64 0x8000000000000005#64 3#64) 2#64 2#64 = 0x8000000000000005#64 := by decide
+
+/-- the other disjunct of DESIGN §5: with `TagBits > BucketBits` the round trip still holds for ids whose
+top `TagBits − BucketBits` bits are clear. -/
+theorem header_roundtrip_small_id (id tag b t : BitVec 64) (ht : t ≤ 63#64) (hbt : b < t)
+    (hid : id < (1#64 <<< (64#64 - (t - b)))) (htag : tag < (1#64 <<< t)) :
+    Header_Unmarshal_ID (BucketForID id b) (Header_Marshal_idAndTag b t id tag) b t = id ∧
+    Header_Unmarshal_Tag (Header_Marshal_idAndTag b t id tag) t = tag := by
+  unfold Header_Unmarshal_ID BucketForID Header_Marshal_idAndTag Header_Unmarshal_Tag
+  bv_decide (config := { timeout := 900 })
+
+/-- the layout the unrepaired builder created for point blocks with ≤ 2 points (BucketBits 1, TagBits 2)
+loses the top bit of the id — the defect of DESIGN §7. -/
+theorem header_point_block_counterexample :
+    Header_Unmarshal_ID (BucketForID 0x8000000000000005#64 1#64)
+      (Header_Marshal_idAndTag 1#64 2#64 0x8000000000000005#64 1#64) 1#64 2#64 ≠ 0x8000000000000005#64 := by decide
+
+/-- **every layout the builder creates is inside the domain of `header_roundtrip`**: whatever
+`(bucketBits, tagBits)` is requested with `0 ≤ tagBits ≤ 63`, `0 ≤ bucketBits ≤ 63` — in particular
+`(bucketBitsForCount n, tagBits[type])` for every count and feature type — `NewUint64MapBuilder` uses a layout
+with `TagBits ≤ BucketBits ≤ 63` and the requested `TagBits`. Kernel-only. -/
+theorem builder_layouts_ok (b t : BitVec 64) (hb : b ≤ 63#64) (ht : t ≤ 63#64) :
+    (NewUint64MapBuilder_Layout b t).2 = t ∧
+    (NewUint64MapBuilder_Layout b t).2 ≤ (NewUint64MapBuilder_Layout b t).1 ∧
+    (NewUint64MapBuilder_Layout b t).1 ≤ 63#64 ∧
+    layoutOK (NewUint64MapBuilder_Layout b t).1 (NewUint64MapBuilder_Layout b t).2 = true := by
+  unfold NewUint64MapBuilder_Layout layoutOK
+  by_cases h : BitVec.slt b t = true
+  · rw [if_pos h]
+    refine ⟨rfl, BitVec.le_refl _, ht, ?_⟩
+    simp [ht]
+  · rw [if_neg h]
+    have hle : t ≤ b := by
+      simp only [BitVec.slt, decide_eq_true_eq, Int.not_lt] at h
+      have h1 : b.toInt = b.toNat := by
+        rw [BitVec.toInt_eq_toNat_of_lt]; have : b.toNat ≤ 63 := hb; omega
+      have h2 : t.toInt = t.toNat := by
+        rw [BitVec.toInt_eq_toNat_of_lt]; have : t.toNat ≤ 63 := ht; omega
+      rw [h1, h2] at h
+      show t.toNat ≤ b.toNat
+      omega
+    refine ⟨rfl, hle, hb, ?_⟩
+    simp [hle, hb]
+
+/-- the tag-bit table of the index builder (ingest/compact/build.go) stays within 0..63. -/
+theorem builder_tag_bits_ok : ∀ e ∈ B6.Gen.Bits.tagBits, e.2 ≤ 63 := by decide
+
+example : NewUint64MapBuilder_Layout 1#64 2#64 = (2#64, 2#64) := by decide
+
+/-- before the repair the builder used the requested layout, and `(1, 2)` — requested for every point block
+with at most two points — is outside the domain. -/
+theorem builder_layout_old_counterexample :
+    layoutOK (builderLayoutOld 1#64 2#64).1 (builderLayoutOld 1#64 2#64).2 = false := by decide
+
+/-! ## tile ids -/
+
+/-- `ToXYZ(TileIDFromXYZ(x, y, z)) = (x, y, z)` for every zoom up to 29 and `x, y < 2^z`. -/
+theorem tile_id (x y z : BitVec 64) (hz : z ≤ 29#64) (hx : x < 1#64 <<< z) (hy : y < 1#64 <<< z) :
+    TileID_ToXYZ (TileIDFromXYZ x y z) = (x, y, z) := by
+  unfold TileID_ToXYZ TileIDFromXYZ
+  simp only [Prod.mk.injEq]
+  bv_decide (config := { timeout := 900 })
+
+example : TileID_ToXYZ (TileIDFromXYZ 536870911#64 536870911#64 29#64) = (536870911#64, 536870911#64, 29#64) := by decide
+
+/-- zoom 30 does not fit (y overlaps the zoom field) — the bound in the property statement is sharp. -/
+theorem tile_id_zoom30_counterexample :
+    TileID_ToXYZ (TileIDFromXYZ 0#64 0x20000000#64 30#64) ≠ (0#64, 0x20000000#64, 30#64) := by decide
+
+/-! ## lat/lng ids -/
+
+/-- any two `int32` E7 coordinates read back (negative ones included). -/
+theorem latlng_id (lat lng : BitVec 32) :
+    LatLngFromID_latE7 (NewLatLngID_id lat lng) = lat ∧ LatLngFromID_lngE7 (NewLatLngID_id lat lng) = lng := by
+  unfold LatLngFromID_latE7 LatLngFromID_lngE7 NewLatLngID_id
+  constructor <;> bv_decide
+
+example : LatLngFromID_latE7 (NewLatLngID_id 0x80000000#32 0xffffffff#32) = 0x80000000#32 := by decide
+
+/-! ## GB postcodes (hand model, kernel-only) -/
+
+/-- the domain: 5 to 7 characters, each `0-9` or `A-Z` (after dropping spaces and upper-casing). -/
+def PostcodeOK (p : List Char) : Prop :=
+  5 ≤ p.length ∧ p.length ≤ 7 ∧ ∀ c ∈ p, (postcodeCharValue c).isSome
+
+/-- **postcode round trip**: for every ASCII string whose normal form (spaces dropped, upper-cased) is 5–7
+alphanumerics, `PostcodeFromPointID(PointIDFromGBPostcode(s))` is that normal form. -/
+theorem postcode_roundtrip (s : List Char) (h : PostcodeOK (normalizePostcode s)) :
+    ∃ id, pointIDFromGBPostcode s = some id ∧ postcodeFromPointID id = some (normalizePostcode s) ∧ id < 2 ^ 44 :=
+  B6.Lemmas.Bits.postcode_roundtrip s h.1 h.2.1 h.2.2
+
+example : PostcodeOK (normalizePostcode "sw1a 1aa".toList) := by unfold PostcodeOK; decide
+example : pointIDFromGBPostcode "sw1a 1aa".toList = some 7834097961514 := by decide
+example : postcodeFromPointID 7834097961514 = some "SW1A1AA".toList := by decide
+
+/-! ## UK ONS codes (hand model, kernel-only except the 64-bit field lemma) -/
+
+/-- the domain: a letter byte (ASCII), eight decimal digits, 1900 ≤ year ≤ 2155. -/
+def ONSOK (c0 : Char) (ds : List Char) (year : Int) : Prop :=
+  c0.toNat < 128 ∧ ds.length = 8 ∧ (∀ c ∈ ds, (digitValue c).isSome) ∧ 1900 ≤ year ∧ year ≤ 2155
+
+/-- **ONS round trip**: `UKONSCodeFromFeatureID(FeatureIDFromUKONSCode(code, year)) = (code, year)`. -/
+theorem ons_roundtrip (c0 : Char) (ds : List Char) (year : Int) (h : ONSOK c0 ds year) :
+    ∃ v, featureIDFromUKONSCode (c0 :: ds) year = some v ∧ ukONSCodeFromFeatureID v = (c0 :: ds, year) :=
+  B6.Lemmas.Bits.ons_roundtrip c0 ds year h.1 h.2.1 h.2.2.1 h.2.2.2.1 h.2.2.2.2
+
+example : ONSOK 'E' "09000033".toList 2011 := by unfold ONSOK; decide
+example : (featureIDFromUKONSCode "E09000033".toList 2011).map ukONSCodeFromFeatureID
+    = some ("E09000033".toList, 2011) := by decide
+
+/-- reported separately (outside the stated domain): `strconv.Atoi` accepts a sign, so the 9-byte string
+`E-1234567` is accepted and decodes to a different code. -/
+theorem ons_signed_code_counterexample :
+    (featureIDFromUKONSCode "E-1234567".toList 2011).map (fun v => (ukONSCodeFromFeatureID v).1)
+      ≠ some "E-1234567".toList := by decide
+
+end B6.Props.C10
